@@ -79,7 +79,7 @@ def translate(ll, entries, spec, out_c, report, scale=None):
 
 CBMC_BASE = ['cbmc', '--no-standard-checks', '--pointer-check', '--bounds-check', '--div-by-zero-check',
              '--unwinding-assertions', '--drop-unused-functions', '--no-malloc-may-fail', '--json-ui',
-             '--slice-formula', '--object-bits', '12']
+             '--slice-formula', '--object-bits', '12', '--verbosity', '8']
 
 
 def run_cbmc(cfile, entry, unwind, timeout, extra=(), mem_gb=24, unwindset=()):
@@ -114,8 +114,9 @@ def run_cbmc(cfile, entry, unwind, timeout, extra=(), mem_gb=24, unwindset=()):
             mt = item.get('messageText', '')
             m = re.search(r'(\d+) variables, (\d+) clauses', mt)
             if m:
-                res['sat_vars'] = int(m.group(1))
-                res['sat_clauses'] = int(m.group(2))
+                res['sat_vars'] = max(res.get('sat_vars', 0), int(m.group(1)))
+                res['sat_clauses'] = max(res.get('sat_clauses', 0), int(m.group(2)))
+                res['sat_calls'] = res.get('sat_calls', 0) + 1
             m = re.search(r'Runtime Solver: ([\d.e+-]+)s', mt)
             if m:
                 res['solver_s'] = res.get('solver_s', 0) + float(m.group(1))
